@@ -1246,6 +1246,9 @@ impl HnswBackend {
         let mut snapshot_last_wal_seq = 0u64;
         let mut snapshot_timestamp = 0u64;
         let mut max_wal_seq = 0u64;
+        // Sequence numbers in (snapshot.last_wal_seq, fallback_gap_end] that replay has not seen yet.
+        let mut fallback_gap_end = 0u64;
+        let mut fallback_gap_missing = 0u64;
 
         if let Some(snapshot_name) = &manifest.latest_snapshot {
             let snapshot_path = data_dir.join(snapshot_name);
@@ -1254,6 +1257,20 @@ impl HnswBackend {
             // Use load_with_validation for automatic fallback recovery
             match Snapshot::load_with_validation(&snapshot_path, &metrics) {
                 Ok((snapshot, recovered_from_fallback)) => {
+                    // A snapshot older than the one the MANIFEST committed to (fallback after
+                    // corruption) is only a valid base if the WAL can still bring it up to the
+                    // committed state: segments covered by the committed snapshot may already have
+                    // been compacted away. Strict mode checks below that every sequence number in
+                    // between is replayed.
+                    if let (RecoveryMode::Strict, Some(committed_seq)) =
+                        (recovery_mode, manifest.latest_snapshot_wal_seq)
+                    {
+                        if snapshot.last_wal_seq < committed_seq {
+                            fallback_gap_end = committed_seq;
+                            fallback_gap_missing = committed_seq - snapshot.last_wal_seq;
+                        }
+                    }
+
                     let snapshot_has_docs =
                         !snapshot.documents.is_empty() || !snapshot.metadata.is_empty();
 
@@ -1372,6 +1389,9 @@ impl HnswBackend {
                 if entry.seq_no > max_wal_seq {
                     max_wal_seq = entry.seq_no;
                 }
+                if entry.seq_no > snapshot_last_wal_seq && entry.seq_no <= fallback_gap_end {
+                    fallback_gap_missing = fallback_gap_missing.saturating_sub(1);
+                }
 
                 // Skip entries already captured in snapshot (sequence-based)
                 if snapshot_last_wal_seq > 0
@@ -1434,6 +1454,15 @@ impl HnswBackend {
                 corrupted = reader.corrupted_entries(),
                 wal_segment = wal_name,
                 "wal replay complete"
+            );
+        }
+
+        if fallback_gap_missing > 0 {
+            anyhow::bail!(
+                "strict recovery mode: snapshot covers WAL seq {} but MANIFEST committed snapshot seq {} and {} WAL entries in between are no longer available; refusing to recover from the older snapshot",
+                snapshot_last_wal_seq,
+                fallback_gap_end,
+                fallback_gap_missing
             );
         }
 
